@@ -41,3 +41,10 @@ package service
 //@   loop 2 modifies elems(*RequirementData)
 //@   loop 3 modifies elems(*SchemeData)
 //@   modifies all
+
+// "The example command never modifies a file that already exists": the service scaffold is marked SkipExist.
+//@ func exampleServiceFile
+//@   opt inline none
+//@   property C09
+//@   ensures* user.owned.file: result != nil ==> result.SkipExist
+//@   modifies all
